@@ -190,8 +190,9 @@ def child_main(cfg):
 
     def add(self, path, fs, oid, *a, **kw):
         if getattr(self, "path", None) == store:
+            v = kw.get("verify")
             info(kind="add", oids=[oid] if isinstance(oid, str) else list(oid), mem=fs.protocol == "memory",
-                 check_exists=kw.get("check_exists", True))
+                 check_exists=kw.get("check_exists", True), verify=bool(self.verify if v is None else v))
         return orig_add(self, path, fs, oid, *a, **kw)
 
     def oids_exist(self, oids, *a, **kw):
@@ -207,18 +208,19 @@ def child_main(cfg):
     from dvc_data.hashfile.transfer import transfer
 
     state = State(root_dir=root, tmp_dir=os.path.join(root, "st"))
-    odb = LocalHashFileDB(localfs, store, state=state)
+    odb = LocalHashFileDB(localfs, store, state=state, verify=bool(cfg.get("store_verify", False)))
+    vkw = {"verify": True} if cfg.get("verify") else {}  # per-call verification
     scn = cfg["scenario"]
     ws = os.path.join(root, "ws")
     result = None
     st["on"] = True
     if scn == "stage_transfer":
         staging, _meta, obj = build(odb, ws, localfs, "md5")
-        transfer(staging, odb, {obj.hash_info}, shallow=False)
+        transfer(staging, odb, {obj.hash_info}, shallow=False, **vkw)
         result = obj.hash_info.value
     elif scn == "upload":
         staging, _meta, obj = build(odb, ws, localfs, "md5", upload=True)
-        transfer(staging, odb, {obj.hash_info}, shallow=False)
+        transfer(staging, odb, {obj.hash_info}, shallow=False, **vkw)
         result = obj.hash_info.value
     elif scn == "save":
         from dvc_data.index import ObjectStorage
@@ -228,16 +230,16 @@ def child_main(cfg):
 
         idx = imd5(ibuild(ws, localfs), state=state)
         idx.storage_map.add_cache(ObjectStorage((), odb))
-        isave(idx)
+        isave(idx, **vkw)
         result = sorted(e.hash_info.value for _, e in idx.iteritems() if e.hash_info and e.hash_info.isdir)
     elif scn == "store_transfer":
         src = LocalHashFileDB(localfs, os.path.join(root, "src"))
-        transfer(src, odb, {HashInfo("md5", cfg["request"])}, shallow=False)
+        transfer(src, odb, {HashInfo("md5", cfg["request"])}, shallow=False, **vkw)
         result = cfg["request"]
     elif scn == "add":  # direct odb.add of workspace files under given oids (check_exists as given)
         items = cfg["items"]
         odb.add([os.path.join(ws, p) for p, _ in items], localfs, [o for _, o in items],
-                check_exists=cfg.get("check_exists", True))
+                check_exists=cfg.get("check_exists", True), **vkw)
     else:
         raise SystemExit("unknown scenario " + scn)
     st["on"] = False
@@ -290,15 +292,59 @@ def _env():
     return env
 
 
-def run_child(cfg, workdir, tag):
+_SERVERS = []
+_TLS = None
+
+
+def _server():
+    """one pre-imported fork server per worker thread (saves the import time of every child)"""
+    import threading
+
     from lib import core
+
+    global _TLS
+    if _TLS is None:
+        _TLS = threading.local()
+    srv = getattr(_TLS, "srv", None)
+    if srv is None or srv.poll() is not None:
+        srv = subprocess.Popen([core.PY, os.path.abspath(__file__), "server"], env=_env(), stdin=subprocess.PIPE,
+                               stdout=subprocess.PIPE, stderr=subprocess.DEVNULL, text=True, bufsize=1)
+        _TLS.srv = srv
+        _SERVERS.append(srv)
+    return srv
+
+
+def stop_servers():
+    for srv in _SERVERS:
+        try:
+            srv.stdin.close()
+            srv.wait(timeout=10)
+        except Exception:  # noqa: BLE001
+            srv.kill()
+    del _SERVERS[:]
+
+
+def run_child(cfg, workdir, tag):
+    """run one child (forked from this thread's server); returns (exit code, '', error text)"""
+    import select
 
     cpath = os.path.join(workdir, f"cfg-{tag}.json")
     with open(cpath, "w") as f:
         json.dump(cfg, f)
-    p = subprocess.run([core.PY, os.path.abspath(__file__), "child", cpath], env=_env(),
-                       capture_output=True, text=True, timeout=120, check=False)
-    return p.returncode, p.stdout, p.stderr
+    srv = _server()
+    srv.stdin.write(cpath + "\n")
+    srv.stdin.flush()
+    ready, _, _ = select.select([srv.stdout], [], [], 180)
+    if not ready:
+        srv.kill()
+        return -9, "", "child timed out"
+    line = srv.stdout.readline().strip()
+    rc = int(line.split()[1]) if line.startswith("RC ") else -1
+    err = ""
+    if os.path.exists(cpath + ".err"):
+        with open(cpath + ".err") as f:
+            err = f.read()
+    return rc, "", err
 
 
 def read_log(path):
@@ -550,7 +596,7 @@ def gen_tree(rng, big):
     pool = [b"AAA", b"BBB", b"", b"C", b"DDDD-long-content", b"EE"]
     if big:
         pool += [bytes([65 + i]) * (i + 2) for i in range(6, 14)]
-    nfiles = rng.randint(6, 10) if big else rng.randint(3, 4)
+    nfiles = rng.randint(6, 10) if big else rng.randint(2, 3)
     dirs = ["", "d", "d/e", "x"] if big else ["", "d"]
     tree = {}
     for i in range(nfiles):
@@ -583,7 +629,10 @@ def setup(root, sc):
 
 
 def child_cfg(root, sc, **kw):
-    cfg = {"root": root, "scenario": sc["scenario"], "store": "cache"}
+    cfg = {"root": root, "scenario": sc["scenario"], "store": "cache", "verify": bool(sc.get("verify")),
+           "store_verify": bool(sc.get("store_verify"))}
+    if sc["scenario"] == "add":
+        cfg["items"] = [[rp, md5(b)] for rp, b in sc["tree"].items()]
     if sc["scenario"] == "store_transfer":
         ents = [(rp, md5(b)) for rp, b in sc["tree"].items()]
         cfg["request"] = md5(listing_bytes(ents)) + ".dir"
@@ -591,9 +640,12 @@ def child_cfg(root, sc, **kw):
     return cfg
 
 
-def scen_term(names, kind, events, steps, cuts, t0):
+def scen_term(names, sc, events, steps, cuts, t0):
     """the model's program generator for this run; the orders the implementation chose internally
     (set iteration) are read off the child's info lines and passed as oracle arguments"""
+    kind = sc["scenario"]
+    vcall, vstore = bool(sc.get("verify")), bool(sc.get("store_verify"))
+    cb = lambda b: "true" if b else "false"  # noqa: E731
     infos = [e for e in events if e["ev"] == "info"]
     adds = [e for e in infos if e["kind"] == "add"]
     queries = [e for e in infos if e["kind"] == "query"]
@@ -607,7 +659,11 @@ def scen_term(names, kind, events, steps, cuts, t0):
     if kind == "save":
         files = next((e["oids"] for e in adds if not e["mem"]), [])
         dirs = [e["oids"][0] for e in adds if e["mem"]]
-        return "(ScSave %d %s %s)" % (t0, lst(it(o) for o in files), lst(it(o) for o in dirs))
+        return "(ScSave %s %s %d %s %s)" % (cb(vcall), cb(vstore), t0, lst(it(o) for o in files),
+                                            lst(it(o) for o in dirs))
+    if kind == "add":
+        its = adds[0]["oids"] if adds else []
+        return "(ScAdd %s true %d %s)" % (cb(vcall or vstore), t0, lst(it(o) for o in its))
     if kind in ("stage_transfer", "store_transfer", "upload"):
         if not queries:
             return "ScNone"
@@ -625,10 +681,13 @@ def scen_term(names, kind, events, steps, cuts, t0):
                 if e["ev"] not in ("info", "end"):
                     n_pre += 1
             ups = [s_[2] for s_ in steps[:cuts[n_pre]] if s_[0] == "WriteTmp"]
-            return "(ScUpload %d %s %s %s %s)" % (t0, qs, lst("(%s, %s)" % (u, u) for u in ups),
-                                                  lst(it(o) for o in files), it(d))
-        return "(ScTransfer %s %d %s %s %s)" % ("true" if kind == "stage_transfer" else "false", t0, qs,
-                                                lst(it(o) for o in files), it(d))
+            return "(ScUpload %s %d %s %s %s %s)" % (cb(vcall), t0, qs,
+                                                     lst("(%s, %s)" % (u, u) for u in ups),
+                                                     lst(it(o) for o in files), it(d))
+        # transfer() always passes its own verify argument (default False) down to add: the store's
+        # default never applies on this path
+        return "(ScTransfer %s %s %d %s %s %s)" % (cb(vcall), cb(kind == "stage_transfer"), t0, qs,
+                                                   lst(it(o) for o in files), it(d))
     return "ScNone"
 
 
@@ -636,12 +695,14 @@ def scen_term(names, kind, events, steps, cuts, t0):
 
 def jsonable(sc):
     return {"scenario": sc["scenario"], "tree": {k: v.decode("latin1") for k, v in sc["tree"].items()},
-            "pre": [[b.decode("latin1") if isinstance(b, bytes) else b, m] for b, m in sc.get("pre", [])]}
+            "pre": [[b.decode("latin1") if isinstance(b, bytes) else b, m] for b, m in sc.get("pre", [])],
+            "verify": bool(sc.get("verify")), "store_verify": bool(sc.get("store_verify"))}
 
 
 def unjson(case):
     return {"scenario": case["scenario"], "tree": {k: v.encode("latin1") for k, v in case["tree"].items()},
-            "pre": [(b.encode("latin1"), m) for b, m in case.get("pre", [])]}
+            "pre": [(b.encode("latin1"), m) for b, m in case.get("pre", [])],
+            "verify": bool(case.get("verify")), "store_verify": bool(case.get("store_verify"))}
 
 
 def crash_and_rerun(wd, sc, n, tag):
@@ -712,7 +773,7 @@ def execute(wd, sc, label):
                 src_dirs[m] = b
     impl.rm_rf(root)
     n_ev = len([e for e in events if e["ev"] not in ("end", "info")])
-    with ThreadPoolExecutor(max_workers=5) as ex:
+    with ThreadPoolExecutor(max_workers=3) as ex:
         results = list(ex.map(lambda n: crash_and_rerun(wd, sc, n, str(n)), range(1, n_ev + 1)))
     return {"a0": a0, "events": events, "afin": afin, "src_dirs": src_dirs, "results": results}
 
@@ -796,7 +857,7 @@ def run_scenario(ctx, sc, label, data, full_items, rr_items):
             v2 = audit_view(r["a2"])
             term = ("(mkT %s %s [%d] %s %s %s %s)" % (
                 kids_t, parts_t, rcuts[-1], empty_t, world_term(names, view[0], view[1], r["a1"]["rows"]),
-                steps_term(rsteps), scen_term(names, kind, r["ev2"], rsteps, rcuts, len(view[1]))))
+                steps_term(rsteps), scen_term(names, sc, r["ev2"], rsteps, rcuts, len(view[1]))))
             exp = "VL [VN %d; VN %d; VL [%s]; VN 1]" % (0 if bad else 1, 0 if bad else 1,
                                                        world_val(names, v2[0], v2[1], r["a2"]["rows"]))
             rr_items.append((case, term, exp))
@@ -805,7 +866,7 @@ def run_scenario(ctx, sc, label, data, full_items, rr_items):
     term = "(mkT %s %s %s %s %s %s %s)" % (
         kids_t, parts_t, "[" + "; ".join(str(c) for c in cuts) + "]", empty_t,
         world_term(names, init_view[0], init_view[1], a0["rows"]), steps_term(steps),
-        scen_term(names, kind, events, steps, cuts, 0))
+        scen_term(names, sc, events, steps, cuts, 0))
     exp = "VL [VN 1; VN 1; VL [%s]; VN 1]" % "; ".join(cut_worlds)
     if len(cut_worlds) == len(cuts):
         full_items.append(({"scenario": jsonable(sc), "kill_at": 0}, term, exp))
@@ -815,16 +876,25 @@ def scenarios(ctx):
     rng = ctx.rng
     big = ctx.tier != "quick"
     out = []
-    kinds = ["stage_transfer", "save", "store_transfer", "upload"]
-    reps = ctx.n(1, 3)
+    # (kind, per-call verify, store default verify)
+    kinds = [("stage_transfer", False, False), ("save", False, False), ("store_transfer", False, False),
+             ("upload", False, False), ("save", True, False), ("add", True, False), ("save", False, True)]
+    if big:
+        kinds += [("stage_transfer", False, True), ("stage_transfer", True, False), ("store_transfer", True, False), ("upload", True, False),
+                  ("add", False, True), ("add", False, False)]
+    reps = ctx.n(1, 2)
     for rep in range(reps):
-        for k in kinds:
+        for k, vc, vs in kinds:
             tree = gen_tree(rng, big and rep > 0)
+            if not big and k in ("save", "upload"):
+                tree = dict(sorted(tree.items())[:3])
             if k == "save":
                 tree.setdefault("d/e/deep", rng.choice([b"AAA", b"ZZ"]))
-            sc = {"scenario": k, "tree": tree, "pre": []}
+            if k == "add" or (not big and (vc or vs)):
+                tree = dict(sorted(tree.items())[:3])  # d/dup, d/e/deep or d/f*, f*: still nested, maybe duplicate
+            sc = {"scenario": k, "tree": tree, "pre": [], "verify": vc, "store_verify": vs}
             # some runs start from a store that already holds one of the objects (protected, or left unprotected)
-            if rep > 0 or k == "stage_transfer":
+            if rep > 0 or k == "stage_transfer" or (big and rng.random() < 0.4):
                 b = tree[sorted(tree)[rng.randrange(len(tree))]]
                 sc["pre"] = [(b, rng.choice([0o444, 0o644]))]
             out.append(sc)
@@ -840,8 +910,11 @@ def run(ctx):
 
     t0 = time.time()
     labels = [f"{sc['scenario']}-{i}" for i, sc in enumerate(scs)]
-    with ThreadPoolExecutor(max_workers=4) as ex:
-        datas = list(ex.map(lambda il: execute(ctx.fresh("c15-" + il[1]), scs[il[0]], il[1]), enumerate(labels)))
+    try:
+        with ThreadPoolExecutor(max_workers=6) as ex:
+            datas = list(ex.map(lambda il: execute(ctx.fresh("c15-" + il[1]), scs[il[0]], il[1]), enumerate(labels)))
+    finally:
+        stop_servers()
     for sc, label, data in zip(scs, labels, datas):
         run_scenario(ctx, sc, label, data, full_items, rr_items)
     ctx.extra["sweep_wall_s"] = round(time.time() - t0, 1)
@@ -859,6 +932,13 @@ def run(ctx):
 
 
 def replay_case(ctx, case):
+    try:
+        return _replay_case(ctx, case)
+    finally:
+        stop_servers()
+
+
+def _replay_case(ctx, case):
     sc = unjson(case["scenario"])
     wd = ctx.fresh("c15-replay")
     n = int(case.get("kill_at", 0))
@@ -875,6 +955,49 @@ def replay_case(ctx, case):
             "after_rerun": {o: (m, oct(mode)) for o, (m, mode, _b) in r["a2"]["objs"].items()},
             "rows_after_rerun": r["a2"]["rows"], "verdicts": v, "violates": bool(v)}
 
+
+def server_main():
+    """pre-import the implementation, then fork one child per request line (a cfg path); answer 'RC <code>'"""
+    import traceback
+
+    import dvc_objects.fs.generic  # noqa: F401
+    import dvc_objects.fs.utils  # noqa: F401
+
+    import dvc_data.hashfile.build  # noqa: F401
+    import dvc_data.hashfile.cache  # noqa: F401
+    import dvc_data.hashfile.db.local  # noqa: F401
+    import dvc_data.hashfile.state  # noqa: F401
+    import dvc_data.hashfile.transfer  # noqa: F401
+    import dvc_data.index  # noqa: F401
+
+    while True:
+        line = sys.stdin.readline()
+        if not line or not line.strip():
+            break
+        path = line.strip()
+        pid = os.fork()
+        if pid == 0:
+            code = 1
+            try:
+                sys.stdout = open(os.devnull, "w")  # noqa: SIM115
+                with open(path) as f:
+                    cfg = json.load(f)
+                child_main(cfg)
+                code = 0
+            except SystemExit as exc:
+                code = exc.code if isinstance(exc.code, int) else 1
+            except BaseException:  # noqa: BLE001
+                with open(path + ".err", "w") as f:
+                    f.write(traceback.format_exc())
+            os._exit(code)
+        _, status = os.waitpid(pid, 0)
+        sys.stdout.write("RC %d\n" % os.waitstatus_to_exitcode(status))
+        sys.stdout.flush()
+
+
+if __name__ == "__main__" and len(sys.argv) >= 2 and sys.argv[1] == "server":
+    server_main()
+    sys.exit(0)
 
 if __name__ == "__main__" and len(sys.argv) >= 3 and sys.argv[1] == "child":
     with open(sys.argv[2]) as _f:
